@@ -498,42 +498,71 @@ func init() {
 		Run: func(e *Engine, r *RuleRun) {
 			if fn := r.Need("types.AllianceAsset.RewardsStarted"); fn != nil {
 				fa := e.FA(fn)
-				ok := false
-				for _, ret := range Returns(fn) {
-					v := ret.Results[0]
-					if phi, isPhi := v.(*ssa.Phi); isPhi && len(phi.Edges) == 2 {
-						// a || b : edge const true under cond a, other edge b
-						var tr, other *Term
-						for _, ed := range phi.Edges {
+				// the result is a disjunction of comparisons; normalise each disjunct to "blockTime <op> X" and require
+				// X = receiver.RewardStartTime and the ops to add up to >=
+				var disj []*Term
+				var walk func(v ssa.Value, depth int)
+				walk = func(v ssa.Value, depth int) {
+					if depth > 4 {
+						return
+					}
+					if phi, ok := v.(*ssa.Phi); ok {
+						for k, ed := range phi.Edges {
 							t := fa.Term(ed)
 							if t.Op == "const" && t.Name == "true" {
-								tr = t
-							} else {
-								other = t
+								// the branch condition that leads here
+								pred := phi.Block().Preds[k]
+								if iff, ok := lastInstr(pred).(*ssa.If); ok {
+									disj = append(disj, fa.Term(iff.Cond))
+								}
+								continue
 							}
-						}
-						if tr != nil && other != nil {
-							// find the guarding condition of the true edge: the If in the entry block
-							if iff, isIf := lastInstr(fn.Blocks[0]).(*ssa.If); isIf {
-								c := fa.Term(iff.Cond)
-								gt := c.IsCall("time.Time.After") && c.Args[0].String() == "$blockTime" && strings.HasSuffix(c.Args[1].String(), ".RewardStartTime")
-								eq := other.IsCall("time.Time.Equal") && other.Args[0].String() == "$blockTime" && strings.HasSuffix(other.Args[1].String(), ".RewardStartTime")
-								gt2 := other.IsCall("time.Time.After") && other.Args[0].String() == "$blockTime" && strings.HasSuffix(other.Args[1].String(), ".RewardStartTime")
-								eq2 := c.IsCall("time.Time.Equal") && c.Args[0].String() == "$blockTime" && strings.HasSuffix(c.Args[1].String(), ".RewardStartTime")
-								ok = (gt && eq) || (gt2 && eq2)
+							if t.Op == "const" && t.Name == "false" {
+								continue
 							}
+							walk(ed, depth+1)
 						}
-					} else {
-						t := fa.Term(v)
-						if t.Op == "unop" && t.Name == "!" && t.Args[0].IsCall("time.Time.Before") && t.Args[0].Args[0].String() == "$blockTime" && strings.HasSuffix(t.Args[0].Args[1].String(), ".RewardStartTime") {
-							ok = true
-						}
-						if t.Op == "binop" && t.Name == ">=" && t.Args[0].IsCall("time.Time.Compare") && t.Args[0].Args[0].String() == "$blockTime" && strings.HasSuffix(t.Args[0].Args[1].String(), ".RewardStartTime") {
-							ok = true
-						}
+						return
 					}
+					disj = append(disj, fa.Term(v))
 				}
-				r.Check(ok, FuncKey(fn), "RewardsStarted(t) means t >= RewardStartTime", "After || Equal (or !Before, Compare >= 0)", "RewardsStarted is not `block time >= reward start time`", e.Pos(fn.Pos()))
+				for _, ret := range Returns(fn) {
+					walk(ret.Results[0], 0)
+				}
+				ops := map[string]bool{}
+				okAll := len(disj) > 0
+				for _, d := range disj {
+					pos := true
+					for d.Op == "unop" && d.Name == "!" {
+						d = d.Args[0]
+						pos = !pos
+					}
+					rels := relsOf(Guard{Cond: d, Pos: pos})
+					if d.Op == "binop" && d.Args[0].IsCall("time.Time.Compare") {
+						// Compare(a, b) <op> 0  ==  a <op> b
+						c := d.Args[0].CallArgsT()
+						op := d.Name
+						if !pos {
+							op = negOp[op]
+						}
+						rels = []Rel{{TA: c[0], TB: c[1], Op: op}}
+					}
+					if len(rels) != 1 || rels[0].TA == nil || rels[0].TB == nil {
+						okAll = false
+						break
+					}
+					a, b, op := rels[0].TA, rels[0].TB, rels[0].Op
+					if b.String() == "$blockTime" {
+						a, b, op = b, a, flipOp[op]
+					}
+					if a.String() != "$blockTime" || !strings.HasSuffix(b.String(), "$a.RewardStartTime") {
+						okAll = false
+						break
+					}
+					ops[op] = true
+				}
+				ge := ops[">="] && len(ops) == 1 || (ops[">"] && ops["=="] && len(ops) == 2) || (ops[">="] && (ops[">"] || ops["=="]) && !ops["<"] && !ops["<="] && !ops["!="])
+				r.Check(okAll && ge, FuncKey(fn), "RewardsStarted(t) means t >= RewardStartTime", "the result is the disjunction of comparisons of blockTime with the receiver's RewardStartTime that add up to >=", "RewardsStarted is not `block time >= reward start time`", e.Pos(fn.Pos()))
 			}
 			if fn := r.Need("keeper.shouldSkipRewardsToAsset"); fn != nil {
 				fa := e.FA(fn)
